@@ -522,10 +522,10 @@ int main(int argc, char** argv)
     mkdir(gFileDir.c_str(), 0755);
     if (mode == "c07")
     {
-        for (int p = 1; p <= 3; ++p)
-            for (int i = 0; i <= 4; ++i)
-                for (int d = 1; d <= 4; ++d)
-                    for (int j = 0; j <= 6; ++j)
+        for (int p = 1; p <= (thorough ? 4 : 3); ++p)
+            for (int i = 0; i <= (thorough ? 6 : 4); ++i)
+                for (int d = 1; d <= (thorough ? 6 : 4); ++d)
+                    for (int j = 0; j <= (thorough ? 9 : 6); ++j)
                         for (int o = 0; o < 2; ++o)
                             for (int sp = 0; sp < 2; ++sp)
                                 for (int cl = 0; cl < 2; ++cl)
